@@ -22,6 +22,10 @@ type Ramp struct {
 	Sizes []int // pool of batch sizes (number of ids per batch)
 	Wide  bool  // several attributes per item (more dictionary columns touched)
 	Fresh []int // pool of "percent of fresh ids" per batch
+	// Containers: the items of a batch are spread over this many distinct
+	// resources and scopes (300 crosses the 8-bit dictionaries of the
+	// container-level columns: schema URLs, scope names/versions)
+	Containers int
 }
 
 // NewRamp draws the stream-level plan.
@@ -41,6 +45,10 @@ func NewRamp(t *rapid.T, big bool) *Ramp {
 		r.Sizes = []int{60000, 40000, 20000, 300, 1}
 	}
 	r.Wide = rapid.Bool().Draw(t, "wide")
+	r.Containers = rapid.SampledFrom([]int{1, 1, 3, 300}).Draw(t, "containers")
+	if big {
+		r.Containers = 1
+	}
 	return r
 }
 
@@ -97,12 +105,23 @@ func (r *Ramp) Traces() ptrace.Traces {
 	if len(ids) == 0 {
 		return td
 	}
-	rs := td.ResourceSpans().AppendEmpty()
-	rs.Resource().Attributes().PutStr("host", "h"+strconv.Itoa(ids[0]%3))
-	ss := rs.ScopeSpans().AppendEmpty()
-	ss.Scope().SetName("scope")
-	for _, id := range ids {
+	scopes := make([]ptrace.ScopeSpans, 0, r.Containers)
+	for c := 0; c < r.Containers; c++ {
+		rs := td.ResourceSpans().AppendEmpty()
+		rs.Resource().Attributes().PutStr("host", "h"+strconv.Itoa((ids[0]+c)%(r.Containers+2)))
+		ss := rs.ScopeSpans().AppendEmpty()
+		ss.Scope().SetName("scope")
+		if r.Containers > 1 {
+			rs.SetSchemaUrl("https://res/" + strconv.Itoa(c))
+			ss.Scope().SetName("scope" + strconv.Itoa(c))
+			ss.Scope().SetVersion("v" + strconv.Itoa(c))
+			ss.SetSchemaUrl("https://scope/" + strconv.Itoa(c))
+		}
+		scopes = append(scopes, ss)
+	}
+	for n, id := range ids {
 		s := strconv.Itoa(id)
+		ss := scopes[n%len(scopes)]
 		for x := 0; x < r.Reuse; x++ {
 			sp := ss.Spans().AppendEmpty()
 			sp.SetName("n" + s)
@@ -136,12 +155,23 @@ func (r *Ramp) Logs() plog.Logs {
 	if len(ids) == 0 {
 		return ld
 	}
-	rl := ld.ResourceLogs().AppendEmpty()
-	rl.Resource().Attributes().PutStr("host", "h"+strconv.Itoa(ids[0]%3))
-	sl := rl.ScopeLogs().AppendEmpty()
-	sl.Scope().SetName("scope")
-	for _, id := range ids {
+	scopes := make([]plog.ScopeLogs, 0, r.Containers)
+	for c := 0; c < r.Containers; c++ {
+		rl := ld.ResourceLogs().AppendEmpty()
+		rl.Resource().Attributes().PutStr("host", "h"+strconv.Itoa((ids[0]+c)%(r.Containers+2)))
+		sl := rl.ScopeLogs().AppendEmpty()
+		sl.Scope().SetName("scope")
+		if r.Containers > 1 {
+			rl.SetSchemaUrl("https://res/" + strconv.Itoa(c))
+			sl.Scope().SetName("scope" + strconv.Itoa(c))
+			sl.Scope().SetVersion("v" + strconv.Itoa(c))
+			sl.SetSchemaUrl("https://scope/" + strconv.Itoa(c))
+		}
+		scopes = append(scopes, sl)
+	}
+	for n, id := range ids {
 		s := strconv.Itoa(id)
+		sl := scopes[n%len(scopes)]
 		for x := 0; x < r.Reuse; x++ {
 			l := sl.LogRecords().AppendEmpty()
 			l.Body().SetStr("body " + s)
@@ -164,12 +194,23 @@ func (r *Ramp) Metrics() pmetric.Metrics {
 	if len(ids) == 0 {
 		return md
 	}
-	rm := md.ResourceMetrics().AppendEmpty()
-	rm.Resource().Attributes().PutStr("host", "h"+strconv.Itoa(ids[0]%3))
-	sm := rm.ScopeMetrics().AppendEmpty()
-	sm.Scope().SetName("scope")
-	for _, id := range ids {
+	scopes := make([]pmetric.ScopeMetrics, 0, r.Containers)
+	for c := 0; c < r.Containers; c++ {
+		rm := md.ResourceMetrics().AppendEmpty()
+		rm.Resource().Attributes().PutStr("host", "h"+strconv.Itoa((ids[0]+c)%(r.Containers+2)))
+		sm := rm.ScopeMetrics().AppendEmpty()
+		sm.Scope().SetName("scope")
+		if r.Containers > 1 {
+			rm.SetSchemaUrl("https://res/" + strconv.Itoa(c))
+			sm.Scope().SetName("scope" + strconv.Itoa(c))
+			sm.Scope().SetVersion("v" + strconv.Itoa(c))
+			sm.SetSchemaUrl("https://scope/" + strconv.Itoa(c))
+		}
+		scopes = append(scopes, sm)
+	}
+	for n, id := range ids {
 		s := strconv.Itoa(id)
+		sm := scopes[n%len(scopes)]
 		for x := 0; x < r.Reuse; x++ {
 			m := sm.Metrics().AppendEmpty()
 			m.SetName("n" + s)
